@@ -232,7 +232,7 @@ def r20b(ctx):
 
 def r20c(ctx):
     repo = ctx.repo
-    ctx.rule("R20c", "entries: one loop over body.headers, level filter against the TOC's outline level, applied before numbering", floor=5)
+    ctx.rule("R20c", "entries: one loop over body.headers, level filter against the TOC's outline level, applied before numbering; entry = the heading's own text", floor=6)
     f = repo.func("TOC.fill")
     loops = [n for n in walk_no_nested(f.node) if isinstance(n, ast.For) and isinstance(n.iter, ast.Attribute) and n.iter.attr == "headers"]
     ok = len(loops) == 1
@@ -274,6 +274,36 @@ def r20c(ctx):
     ctx.instance("R20c", f"{f.file}:{f.ident}", "numbering called with the heading's level", ok=okn)
     if not okn:
         ctx.report("R20c", f, loop, "numbering level", "the hierarchical number is not computed from the heading's level")
+    # the entry shows the heading's own text and nothing else: the accessor read on the heading must not include the heading's tail
+    hcls = repo.cls("Header")
+    para = [n for n in ast.walk(loop) if isinstance(n, ast.Call) and call_name(n) == "Paragraph" and n.args]
+    accs = [x for p_ in para for x in ast.walk(p_.args[0]) if isinstance(x, ast.Attribute) and isinstance(x.value, ast.Name) and x.value.id == hv]
+
+    def reads_own_tail(cls_, prop, depth=0):
+        g_ = cls_.lookup(prop, "getter")
+        if g_ is None or depth > 2:
+            return None
+        for x in walk_no_nested(g_.node):
+            if isinstance(x, ast.Attribute) and isinstance(x.value, ast.Name) and x.value.id == "self":
+                if x.attr in ("tail", "_text_tail"):
+                    return f"{g_.ident} reads self.{x.attr}"
+                if x.attr != prop:
+                    sub = reads_own_tail(cls_, x.attr, depth + 1)
+                    if sub:
+                        return f"{g_.ident} → {sub}"
+        return None
+
+    for a_ in accs:
+        why = reads_own_tail(hcls, a_.attr)
+        ctx.instance("R20c", f"{f.file}:{f.ident}", f"entry text from {hv}.{a_.attr}: " + ("the heading's own content" if not why else f"includes its tail ({why})"),
+                     ok=not why, nontrivial=True, line=a_.lineno)
+        if why:
+            ctx.report("R20c", f, a_, f"{norm(a_, 30)} includes the heading's tail",
+                       f"the TOC entry is built from `{hv}.{a_.attr}`, which includes the text *after* the heading element ({why}): a document saved with indentation "
+                       f"and reopened has line breaks and blanks there, which end up in every entry")
+    if not accs:
+        ctx.instance("R20c", f"{f.file}:{f.ident}", "entry text read from the heading", ok=False, line=loop.lineno)
+        ctx.report("R20c", f, loop, "entry text not read from an accessor of the heading", "the TOC entry is not built from a text accessor of the heading element")
     # headings outside the depth do not advance the counters (scripts/headers.py filters before it touches them)
     if num and lvl_guard:
         ng = structural_guards(num[0], stop=loop)
@@ -386,6 +416,8 @@ from ..selftest import Seed, unparse_seed  # noqa: E402
 _TOC = "src/odfdo/toc.py"
 _HS = "src/odfdo/scripts/headers.py"
 SEEDS = [
+    Seed("TOC entry built from text_recursive (includes the tail)", "fault", "src/odfdo/toc.py",
+         'paragraph = Paragraph(f"{number_str} {header.inner_text}")', 'paragraph = Paragraph(f"{number_str} {header.text_recursive}")', "R20c"),
     Seed("TOC numbers a heading before the level filter", "fault", "src/odfdo/toc.py", '            if level is None or level > outline_level:\n                continue\n            number_str = self._header_numbering(level_indexes, level)\n',
          "            number_str = self._header_numbering(level_indexes, level)\n            if level is None or level > outline_level:\n                continue\n", "R20c"),
     Seed("entry built from str(header) again", "fault", _TOC, 'Paragraph(f"{number_str} {header.inner_text}")', 'Paragraph(f"{number_str} {header}")', "R20a"),
